@@ -263,7 +263,7 @@ def check_summary(ctx, where, entry, trace, w, case, mean_key='mean'):
 
 
 # ------------------------------------------------------------------------------------------ generators
-WKINDS = ['random', 'equal', 'ties', 'zeros', 'dominant', 'nested']
+WKINDS = ['random', 'equal', 'ties', 'zeros', 'dominant', 'nested', 'plateau']
 
 
 def gen_weights(rng, n, kind):
@@ -279,6 +279,11 @@ def gen_weights(rng, n, kind):
     elif kind == 'dominant':
         w = rng.random(n) * 1e-6
         w[int(rng.integers(0, n))] = 1.0
+    elif kind == 'plateau':
+        # a likelihood plateau: the greatest weight is shared by 2-4 DIFFERENT samples, the others are below it
+        w = rng.random(n) * 0.9 + 1e-3
+        top = rng.permutation(n)[:int(rng.integers(2, 5))]
+        w[top] = 1.0
     elif kind == 'nested':
         lw = np.sort(rng.uniform(-800, 0, size=n))
         w = np.exp(lw - lw.max())           # leading weights underflow to exact zeros
@@ -773,6 +778,15 @@ def eval_fit(ctx, spec):
                                   dict(param=nm, stored=rep, reported=float(want)))
                 mapvec.append(float(rep[0]))
         if sampler == 'nestle' and nd >= 1:
+            # "the MAP is THE SAMPLE of greatest weight": the reported MAP values, taken together, are one stored sample
+            # (one row of the traces) and that sample carries the greatest weight - judged on the whole vector, which only
+            # differs from the per-parameter judgement above when several samples share the greatest weight
+            heaviest = np.flatnonzero(W == W.max())
+            ctx.bucket('map:greatest-weight-shared-by:%s:%s' % ('1' if len(heaviest) == 1 else '2+', '1-param' if nd == 1 else '2+params'))
+            if not any(S[r].tolist() == mapvec for r in heaviest):
+                ctx.violation('map-not-one-sample:' + where, 'the reported MAP values are not, together, one of the stored samples of '
+                              'greatest weight (each parameter takes its MAP from a different sample)', case,
+                              dict(mode=j, map=mapvec, heaviest_samples=S[heaviest][:4], heaviest_rows=heaviest[:8]))
             d = ctx.model().call('c09.store', C.N(nd), C.LL(S.tolist()), C.L(W))
             mi = d.nat()
             ctx.check_eq('MAP vector vs Posterior.mapVector', mapvec, d.list(), sm)
